@@ -52,8 +52,20 @@ def generate(check, population, rng, tier):
     return t
 
 
+ENUMERATED = ('sweep', 'truncsweep', 'bytesweep', 'fieldsweep')
+
+
 def execute(check, trace, keep_log=False):
-    return world_a.execute(trace, PROPS[check], keep_log)
+    res = world_a.execute(trace, PROPS[check], keep_log)
+    pop = trace.get('population')
+    if pop in ENUMERATED:
+        # enumerated sub-spaces are reported with their own counts
+        ex = res.setdefault('extra', {})
+        ex['enumerated_%s_frames' % pop] = len(trace['conns'])
+        ex['enumerated_%s_faults' % pop] = sum(
+            len(c.get('closes', ())) + len(c.get('faults', ()))
+            for c in trace['conns'])
+    return res
 
 
 def sample_view(trace, res):
